@@ -12,14 +12,22 @@ package linter
 
 //@ spec trimGo(s string) string = ite(hasPrefix(s, "go"), substr(s, 2, len(s)), s)
 //@ spec dotAt(s string) int = indexOf(trimGo(s), ".")
-//@ spec validGoVersion(s string) bool = trimGo(s) == "" || (dotAt(s) >= 0 && !contains(substr(trimGo(s), dotAt(s) + 1, len(trimGo(s))), ".") && atoiOK(substr(trimGo(s), 0, dotAt(s))) && atoiOK(substr(trimGo(s), dotAt(s) + 1, len(trimGo(s)))))
+// an unsigned decimal number that fits an int: what Atoi accepts, minus the signs
+//@ spec decOK(s string) bool = atoiOK(s) && !hasPrefix(s, "+") && !hasPrefix(s, "-")
+//@ func parseVersionPart
+//@   prop C15 C19
+//@   pure
+//@   ensures @unsigned-decimal-only result1 == nil <==> decOK(s)
+//@   ensures @value-of-the-digits result1 == nil ==> result0 == toInt(s)
+//@   ensures @digits-are-accepted isDigits(s) ==> (result1 == nil && result0 == toInt(s))
+//@ spec validGoVersion(s string) bool = trimGo(s) == "" || (dotAt(s) >= 0 && !contains(substr(trimGo(s), dotAt(s) + 1, len(trimGo(s))), ".") && decOK(substr(trimGo(s), 0, dotAt(s))) && toInt(substr(trimGo(s), 0, dotAt(s))) >= 1 && decOK(substr(trimGo(s), dotAt(s) + 1, len(trimGo(s)))))
 
 //@ func ParseGoVersion
 //@   prop C15 C19
 //@   assigns nothing
 //@   ensures @valid-iff result1 == nil <==> validGoVersion(version)
 //@   ensures @empty-means-all (version == "" || version == "go") ==> (result1 == nil && result0.Major == 0 && result0.Minor == 0)
-//@   ensures @accepted-numeric forall a string, b string :: (isDigits(a) && isDigits(b) && !contains(a, ".") && !contains(b, ".") && (version == a ++ "." ++ b || version == "go" ++ a ++ "." ++ b)) ==> (result1 == nil && result0.Major == toInt(a) && result0.Minor == toInt(b))
+//@   ensures @accepted-numeric forall a string, b string :: (isDigits(a) && isDigits(b) && toInt(a) >= 1 && !contains(a, ".") && !contains(b, ".") && (version == a ++ "." ++ b || version == "go" ++ a ++ "." ++ b)) ==> (result1 == nil && result0.Major == toInt(a) && result0.Minor == toInt(b))
 //@   ensures @needs-one-dot (version != "" && version != "go" && result1 == nil) ==> contains(version, ".")
 //@   ensures @error-or-value result1 != nil ==> (result0.Major == 0 && result0.Minor == 0)
 
